@@ -1017,3 +1017,196 @@ Proof.
     destruct Hm as [Hm|[Hm|Hm]]; subst m;
       destruct (run_acts acts _ [] []) as [[a o] e]; simpl; auto.
 Qed.
+
+(* ========================================================================== *)
+(* scheduler forwarding: conservation of tasks                                 *)
+(* ========================================================================== *)
+Definition sev_uids (e : sev) : list Z :=
+  match e with SPut _ us => us | SLocal us => us | SFail u => [u] | SCancel us => us end.
+Definition evs_uids (evs : list sev) : list Z := concat (map sev_uids evs).
+Definition sop_uids (o : sop) : list Z :=
+  match o with SIncoming ts => map s_uid ts | _ => [] end.
+
+Lemma evs_uids_app a b : evs_uids (a ++ b) = evs_uids a ++ evs_uids b.
+Proof. unfold evs_uids. rewrite map_app, concat_app. reflexivity. Qed.
+
+Lemma badd_perm k v : forall b,
+  Permutation (backlog_uids (badd k v b)) (v ++ backlog_uids b).
+Proof.
+  unfold backlog_uids. induction b as [|[a x] r IH]; simpl.
+  - reflexivity.
+  - destruct (a =? k); simpl.
+    + rewrite <- app_assoc. apply Permutation_app_swap_app.
+    + rewrite IH. apply Permutation_app_swap_app.
+Qed.
+
+Lemma group_add_badd k u : forall g, group_add k u g = badd k [u] g.
+Proof. induction g as [|[a x] r IH]; simpl; [reflexivity|]. rewrite IH. reflexivity. Qed.
+
+Lemma bremove_perm k us : forall b,
+  blookup k b = Some us ->
+  Permutation (backlog_uids b) (us ++ backlog_uids (bremove k b)).
+Proof.
+  unfold backlog_uids. induction b as [|[a x] r IH]; simpl; [discriminate|].
+  destruct (a =? k).
+  - intro H. injection H as <-. reflexivity.
+  - intro H. simpl. rewrite (IH H). apply Permutation_app_swap_app.
+Qed.
+
+Lemma rr_uids names n : forall us idx, evs_uids (rr names n idx us) = us.
+Proof.
+  induction us as [|u r IH]; intro idx; simpl; [reflexivity|].
+  unfold evs_uids in *. simpl. rewrite IH. reflexivity.
+Qed.
+
+Lemma classify_perm_acc : forall ts loc rap,
+  Permutation (fst (fold_left
+     (fun (acc : list Z * list (Z * list Z)) (t : stask) =>
+        let '(u, rid, is_worker, seen) := t in
+        let '(loc, rap) := acc in
+        match rid with
+        | Some name => if negb is_worker
+                       then (if seen then (loc ++ [u], rap) else (loc, group_add name u rap))
+                       else (loc ++ [u], rap)
+        | None => (loc ++ [u], rap)
+        end) ts (loc, rap))
+   ++ backlog_uids (snd (fold_left
+     (fun (acc : list Z * list (Z * list Z)) (t : stask) =>
+        let '(u, rid, is_worker, seen) := t in
+        let '(loc, rap) := acc in
+        match rid with
+        | Some name => if negb is_worker
+                       then (if seen then (loc ++ [u], rap) else (loc, group_add name u rap))
+                       else (loc ++ [u], rap)
+        | None => (loc ++ [u], rap)
+        end) ts (loc, rap))))
+  (map s_uid ts ++ loc ++ backlog_uids rap).
+Proof.
+  induction ts as [|t ts IH]; intros loc rap; [reflexivity|].
+  destruct t as [[[u rid] w] seen]. cbn [fold_left map s_uid fst].
+  assert (Hloc : forall l r, Permutation (map s_uid ts ++ (l ++ [u]) ++ r) (u :: map s_uid ts ++ l ++ r)).
+  { intros l r. rewrite <- app_assoc. simpl.
+    apply Permutation_sym. rewrite !app_assoc. apply Permutation_middle. }
+  destruct rid as [name|]; [destruct (negb w); [destruct seen|]|];
+    try (rewrite IH; apply Hloc).
+  rewrite IH, group_add_badd, badd_perm. simpl.
+  apply Permutation_sym. rewrite !app_assoc. apply Permutation_middle.
+Qed.
+
+Lemma classify_perm ts :
+  Permutation (fst (classify ts) ++ backlog_uids (snd (classify ts))) (map s_uid ts).
+Proof.
+  unfold classify. rewrite classify_perm_acc. simpl. rewrite app_nil_r. reflexivity.
+Qed.
+
+Lemma backlog_uids_cons k us r : backlog_uids ((k, us) :: r) = us ++ backlog_uids r.
+Proof. reflexivity. Qed.
+
+Lemma forward_perm : forall groups st,
+  Permutation (evs_uids (snd (forward st groups)) ++ backlog_uids (s_backlog (fst (forward st groups))))
+              (backlog_uids groups ++ backlog_uids (s_backlog st)).
+Proof.
+  induction groups as [|[name us] r IH]; intro st; [reflexivity|].
+  cbn [forward]. rewrite backlog_uids_cons.
+  destruct (memZ name (s_queues st)).
+  - specialize (IH st). destruct (forward st r) as [st' evs]. cbn [fst snd] in *.
+    unfold evs_uids. cbn [map concat sev_uids]. fold (evs_uids evs).
+    rewrite <- !app_assoc. apply Permutation_app_head. exact IH.
+  - destruct (negb match s_queues st with [] => true | _ => false end && (name =? 0)).
+    + specialize (IH st). destruct (forward st r) as [st' evs]. cbn [fst snd] in *.
+      rewrite evs_uids_app, rr_uids. rewrite <- !app_assoc. apply Permutation_app_head. exact IH.
+    + rewrite IH. cbn [s_backlog]. rewrite badd_perm. rewrite <- !app_assoc.
+      apply Permutation_app_swap_app.
+Qed.
+
+Lemma filter_split {A} (f : A -> bool) l :
+  Permutation (filter f l ++ filter (fun x => negb (f x)) l) l.
+Proof.
+  induction l as [|a r IH]; simpl; [constructor|]. destruct (f a); simpl.
+  - constructor. exact IH.
+  - apply Permutation_sym, Permutation_cons_app, Permutation_sym, IH.
+Qed.
+
+Lemma perm4 {A} (a b c d x y : list A) :
+  Permutation (a ++ c) x -> Permutation (b ++ d) y ->
+  Permutation ((a ++ b) ++ (c ++ d)) (x ++ y).
+Proof.
+  intros H1 H2. rewrite <- H1, <- H2, <- !app_assoc. apply Permutation_app_head.
+  apply Permutation_app_swap_app.
+Qed.
+
+Lemma cancel_perm uids : forall b,
+  Permutation (snd (cancel_backlog uids b) ++ backlog_uids (fst (cancel_backlog uids b)))
+              (backlog_uids b).
+Proof.
+  unfold cancel_backlog, backlog_uids. cbn [fst snd].
+  induction b as [|[k l] r IH]; [reflexivity|]. cbn [map concat fst snd].
+  apply perm4; [apply filter_split | exact IH].
+Qed.
+
+Lemma fail_uids_map us : evs_uids (map SFail us) = us.
+Proof. induction us as [|u r IH]; [reflexivity|]. unfold evs_uids in *. simpl. rewrite IH. reflexivity. Qed.
+
+Lemma sstep_perm st o :
+  Permutation (evs_uids (snd (sstep st o)) ++ backlog_uids (s_backlog (fst (sstep st o))))
+              (sop_uids o ++ backlog_uids (s_backlog st)).
+Proof.
+  destruct o as [ts|name|name|uids]; cbn [sstep sop_uids].
+  - pose proof (classify_perm ts) as Hc. destruct (classify ts) as [loc rap]. cbn [fst snd] in Hc.
+    pose proof (forward_perm rap st) as Hf. destruct (forward st rap) as [st' evs]. cbn [fst snd] in *.
+    rewrite evs_uids_app.
+    assert (Hl : evs_uids (match loc with [] => [] | _ => [SLocal loc] end) = loc).
+    { destruct loc; [reflexivity|]. unfold evs_uids. simpl. rewrite app_nil_r. reflexivity. }
+    rewrite Hl, <- Hc. rewrite <- app_assoc.
+    rewrite (Permutation_app_swap_app (evs_uids evs) loc). rewrite Hf.
+    rewrite <- app_assoc. reflexivity.
+  - destruct (blookup name (s_backlog st)) as [us|] eqn:E1.
+    + destruct (blookup 0 (bremove name (s_backlog st))) as [us2|] eqn:E2; cbn [fst snd s_backlog].
+      * rewrite (bremove_perm _ _ _ E1), (bremove_perm _ _ _ E2).
+        unfold evs_uids. simpl. rewrite app_nil_r, <- app_assoc. reflexivity.
+      * rewrite (bremove_perm _ _ _ E1). unfold evs_uids. simpl. rewrite app_nil_r. reflexivity.
+    + destruct (blookup 0 (s_backlog st)) as [us2|] eqn:E2; cbn [fst snd s_backlog].
+      * rewrite (bremove_perm _ _ _ E2). unfold evs_uids. simpl. rewrite app_nil_r. reflexivity.
+      * reflexivity.
+  - destruct (blookup name (s_backlog st)) as [us|] eqn:E1; cbn [fst snd s_backlog].
+    + rewrite fail_uids_map, (bremove_perm _ _ _ E1). reflexivity.
+    + reflexivity.
+  - pose proof (cancel_perm uids (s_backlog st)) as Hc.
+    destruct (cancel_backlog uids (s_backlog st)) as [b' c]. cbn [fst snd s_backlog] in *.
+    unfold evs_uids. simpl. rewrite app_nil_r. exact Hc.
+Qed.
+
+(* every task that ever came in is, at any time, in exactly one place: handed
+   to the local scheduler, put on a raptor queue, failed (raptor gone),
+   canceled, or waiting in the backlog *)
+Theorem srun_conservation : forall ops st,
+  Permutation (evs_uids (snd (srun st ops)) ++ backlog_uids (s_backlog (fst (srun st ops))))
+              (concat (map sop_uids ops) ++ backlog_uids (s_backlog st)).
+Proof.
+  induction ops as [|o ops IH]; intro st; [reflexivity|].
+  cbn [srun map concat].
+  pose proof (sstep_perm st o) as H1. destruct (sstep st o) as [s1 e1]. cbn [fst snd] in H1.
+  specialize (IH s1). destruct (srun s1 ops) as [s2 e2]. cbn [fst snd] in *.
+  rewrite evs_uids_app. apply (permC _ _ _ _ _ _ _ H1 IH).
+Qed.
+
+(* the routing decision for one task: scheduled here iff it names no raptor,
+   is a raptor worker itself, or has already been seen by its raptor *)
+Lemma classify_one u rid w seen :
+  classify [(u, rid, w, seen)] =
+  match rid with
+  | Some name => if negb w && negb seen then ([], [(name, [u])]) else ([u], [])
+  | None => ([u], [])
+  end.
+Proof. destruct rid as [n|]; destruct w, seen; reflexivity. Qed.
+
+(* ========================================================================== *)
+(* the process wrapper                                                         *)
+(* ========================================================================== *)
+Lemma proc_results_once e :
+  exists ret exc, proc_results e = [(ret, exc)] /\
+                  (ret = 0 <-> e = PReturn) /\ exc = negb (ret =? 0).
+Proof.
+  destruct e; simpl; eexists _, _; (split; [reflexivity|]); (split; [|reflexivity]);
+    split; intro H; try discriminate; reflexivity.
+Qed.
